@@ -65,8 +65,22 @@ MANIFEST = {
             "(created over a deleted one) the by-name restore operations of the model are not the code's first-match semantics: the "
             "rig ends the comparison of that trace there (counted) and relies on the identity-based implementation oracle. The fix "
             "and installation timing theorems are lifted over install/uninstall/tickDb steps by name (round 7: C14_dyn_fix_exact, "
-            "C14_dyn_install_exact from the install REQUEST on); the folder-scan, folder-restore and node-scan timing theorems are still "
-            "stated for base-operation sequences. Game layer: "
+            "C14_dyn_install_exact from the install REQUEST on); round 7c: the folder-scan, folder-restore and node-scan timing theorems "
+            "are lifted over every List DOp as well (C14_dyn_node_scan_exact; C14_dyn_folder_scan_exact / C14_dyn_folder_restore_exact "
+            "BY POSITION - dynamic operations only append folders, C14_dyn_struct_pos; when the completing timestep is a tickDb only "
+            "the countdown reaching 0 is stated, the full conclusion for a plain timestep). The SCAN PATH is TRANSLATED statement "
+            "by statement from the source (extract/health_scan_tr.py -> Gen/HealthScan.lean: Software.scan, File.scan, Folder.scan, "
+            "Folder._scan_timestep, FileSystem.scan, Node.scan, the node-scan block of Node.apply_timestep) and proved EQUAL to the "
+            "model functions for every state (Props/C14GenScan.lean: C14_gen_sw_scan, C14_gen_file_scan, C14_gen_folder_scan, "
+            "C14_gen_folder_scan_timestep, C14_gen_fs_scan, C14_gen_node_scan_request, C14_gen_node_scan_block; C14g_refuted keeps the "
+            "counter-model of the blind change C14-g - a folder with its own timed scan pending when a whole-node scan completes); the "
+            "inventory no longer compares the guard TEXT of those methods (tied semantically by the translation). Game layer: "
+            "family game-step drives the REAL PrimaiteGame.step() (PrimaiteGame.from_config, two real ProxyAgents with and without "
+            "file_system_requires_scan, actions stored with store_action, folder delete / restore through two rig-registered actions) "
+            "and diffs every step against the model driver (whole dump, flag, reported / cached folder value, file values in the "
+            "observations): every 2-step game over 13 action pairs x node scan {1,2} x folder scan {1,2} (676), thorough + 1 500 sampled "
+            "3-step games; while the host is not ON HostObservation shows its default observation - that gate is applied by the rig, "
+            "not modelled. "
             "PrimaiteGymEnv episodes on shipped and generated scenarios are checked by the identity-based oracle, not by the model. "
             "The node's reveal-to-red countdown (top-level `scan` request) is modelled because it shares a block of the timestep with "
             "the whole-node scan: C14_red_scan_independent - whatever stands on it, every operation leaves all health state as it "
